@@ -58,6 +58,7 @@ type Result struct {
 	Leaks     []LeakInfo `json:"leaks,omitempty"`
 	ProfLeak  int        `json:"profLeak,omitempty"`  // library goroutines left behind by this parse (profile)
 	ProfWhere string     `json:"profWhere,omitempty"` // function such a goroutine belongs to
+	HookOpen  int        `json:"hookOpen,omitempty"`  // scanners started by this call that never logged "close" (after the settle time)
 	Events    string     `json:"events,omitempty"`    // compact event list of a sampled trace
 	Micros    int64      `json:"us,omitempty"`
 	CPUus     int64      `json:"cpuUs,omitempty"` // time: CPU time (user+system, getrusage) of the best repetition
@@ -101,6 +102,7 @@ type worker struct {
 	triage    time.Duration // hard limit of the fast triage per input
 	ngBase    int
 	leakedIDs map[string]bool
+	lastOpen  int
 	slow      int
 }
 
@@ -414,6 +416,11 @@ func (w *worker) runOne(in *Input) Result {
 	}
 	if in.Prof && d.pan == nil {
 		res.ProfLeak, res.ProfWhere = w.profileAfterParse()
+		open := w.tr.OpenScanners()
+		if open > w.lastOpen {
+			res.HookOpen = open - w.lastOpen
+		}
+		w.lastOpen = open
 	}
 	return res
 }
